@@ -96,15 +96,19 @@ class Ctx:
 _built = {}
 
 
-def build_harness(parallel=True):
-    """cargo build of the harness against /repo's current working tree."""
-    key = "par" if parallel else "nopar"
+def build_harness(parallel=True, features=()):
+    """cargo build of the harness against /repo's current working tree.  `features`:
+    contributor modules (x-meta, x-parseq, x-world, x-zoo) needed by the caller's binary."""
+    features = tuple(sorted(features))
+    key = ("par" if parallel else "nopar") + "".join("-" + f for f in features)
     if key in _built:
         return _built[key]
-    tdir = "target" if parallel else "target-nopar"
+    tdir = "target" if key == "par" else "target-" + key
     cmd = ["cargo", "build", "--offline", "--bins", "--target-dir", tdir]
     if not parallel:
         cmd += ["--no-default-features"]
+    if features:
+        cmd += ["--features", ",".join(features)]
     r = sh(cmd, cwd=HARNESS, timeout=1800)
     if r.returncode != 0:
         raise ToolError("harness build failed (%s):\n%s" % (key, r.stdout[-4000:]))
@@ -112,8 +116,8 @@ def build_harness(parallel=True):
     return _built[key]
 
 
-def run_bin(ctx, name, args, parallel=True, timeout=3600, want_json=True):
-    d = build_harness(parallel)
+def run_bin(ctx, name, args, parallel=True, timeout=3600, want_json=True, features=()):
+    d = build_harness(parallel, features)
     r = subprocess.run([os.path.join(d, name)] + [str(a) for a in args], stdout=subprocess.PIPE,
                        stderr=subprocess.PIPE, text=True, timeout=timeout)
     if r.returncode != 0:
